@@ -382,6 +382,27 @@ def directed_programs():
             ops.append(G.op_for_member(kind, ci, name, args))
         for truth in ({1: ["T"], 2: ["T"]}, {1: ["F"], 2: ["T"]}, {1: ["T"], 2: ["F"]}):
             out.append((prog, ops, truth))
+    # explicitly enabled snapshots whose names collide over a hierarchy / over two sibling bases (C08's definition
+    # matrix): whatever the library does about them, it does the same in every interpreter mode
+    import copy
+
+    from vf.props import c08
+
+    for vname, prog, ops in c08.directed_cases():
+        if not vname.startswith(("dup-name-siblings", "dup-name-hierarchy", "dup-name-one-function")):
+            continue
+        prog = copy.deepcopy(prog)
+        last = None
+        for f in list(prog.get("funcs", [])) + [m for c in prog.get("classes", []) for m in c.get("members", [])]:
+            for d in f.get("decos", []):
+                d["enabled"] = True
+            last = f
+        ops = list(ops)
+        if prog.get("classes") and last is not None and last["kind"] not in ("init", "new"):
+            kind = last["kind"]
+            args = {"value": "a:v"} if kind == "setter" else ({} if kind in ("getter", "deleter") else {"x": "a:x"})
+            ops.append(G.op_for_member(kind, ops[-1]["k"], last["name"], args))
+        out.append((prog, ops, {1: ["T"], 2: ["T"]}))
     return out
 
 
